@@ -35,6 +35,42 @@ def disk_drivers(which, kinds, props):
     return f
 
 
+def cosim_drivers(exclude=()):
+    def f(ctx):
+        quick = ctx.tier == "quick"
+        out = []
+        corpus = os.path.join(VERIF, "corpus")
+        for sc in sorted(os.listdir(corpus)):
+            if sc.endswith(".script"):
+                out.append({"name": "corpus-" + sc[:-7], "trace": "c.trace", "exclude_fields": exclude,
+                            "cmd": [os.path.join(HB, "cosim"), "-replay", os.path.join(corpus, sc)]})
+        out.append({"name": "cosim", "trace": "cosim.trace", "exclude_fields": exclude, "timeout": 3000,
+                    "cmd": [os.path.join(HB, "cosim"), "-seed", str(ctx.seed), "-traces", "40" if quick else "600",
+                            "-steps", "120" if quick else "250", "-maxtime", "10m" if quick else "45m"]})
+        return out
+    return f
+
+
+COSIM_RULE = ("lock-step co-simulation: real *Raft nodes (real raft.go, real file-backed log/state/snapshot storage) driven by a "
+              "scripted transport / virtual clock / storage write budget; after every label (deliver, duplicate, reply, fail, tick, "
+              "election timer, heartbeat, submit, snapshot, crash, crash after k storage writes, restart) the complete observable "
+              "state of every node, every in-flight RPC with request and response, every resolved future and every FSM apply stream "
+              "is compared with the extracted Coq model; monitors for the property run on the implementation's observations; "
+              "corpus witnesses (D1, D2) run first; families normal/lossy/delay/crash/snapshot; clusters of 1-5 voters. "
+              "evaluations = labels executed; distinct_nontrivial = distinct (step, label) pairs sampled from the traces")
+COSIM_ASSUME = ["each lock-held section of raft.go is atomic (mutex discipline: C20, not checked)",
+                "observations are taken when every goroutine of the library is blocked (quiescence read from runtime.Stack)",
+                "virtual time: timestamps are shifted in units of one hour; real timers never fire",
+                "FSM calls (Apply/Snapshot/Restore) are atomic in the co-simulation; snapshots are triggered by the harness"]
+
+_SAFETY_EXCL = ("lease", "ro", "sv", "Read")
+
+
+def cosim_plan(exclude=()):
+    return {"harness": ["cosim"], "drivers": cosim_drivers(exclude), "rule": COSIM_RULE, "assumptions": COSIM_ASSUME,
+            "nontrivial": lambda l: False}
+
+
 PLANS = {
     "C19": {
         "harness": ["codecdiff"],
@@ -72,4 +108,8 @@ PLANS = {
                         "sort.Slice leaves an input without inversions unchanged (the comparator in directories() always returns false); "
                         "ReadDir returns names sorted, timestamps have equal digit counts"],
     },
+    "C01": cosim_plan(_SAFETY_EXCL), "C02": cosim_plan(_SAFETY_EXCL), "C03": cosim_plan(_SAFETY_EXCL),
+    "C04": cosim_plan(_SAFETY_EXCL), "C05": cosim_plan(), "C06": cosim_plan(_SAFETY_EXCL), "C07": cosim_plan(_SAFETY_EXCL),
+    "C08": cosim_plan(_SAFETY_EXCL), "C09": cosim_plan(), "C10": cosim_plan(_SAFETY_EXCL), "C11": cosim_plan(_SAFETY_EXCL),
+    "C14": cosim_plan(_SAFETY_EXCL), "C15": cosim_plan(), "C16": cosim_plan(), "C17": cosim_plan(),
 }
